@@ -1497,6 +1497,27 @@ def O_rules(ctx, rule="O"):
             ctx.check(has_nc, rule + "3", "remaining-arg|%s" % short(b.id), m.where(b, bb),
                       "the state is derived from the countdown initialised from node_count()",
                       "the state is derived from %s" % [fmt_src(s) for s in srcs][:4])
+        # the mapped state is what the outcome carries: the `state` argument of every StreamOutcome::new outside the mapping function
+        # comes from a call of the mapping function only (a later `if interrupted_seen { Interrupted } else { state }` reports
+        # Interrupted although every function was processed)
+        new_sig = fb.fns.get(new_id) or {}
+        st_idx = [i for i, x in enumerate(new_sig.get("inputs", [])) if "StreamOutcomeState" in x["s"]]
+        if len(st_idx) == 1:
+            for (b, bb, t) in fl.call_sites().get(new_id, []):
+                if fb.is_test_body(b) or b.id == mp.id or b.root == mp.id or st_idx[0] >= len(t["args"]):
+                    continue
+                srcs = fl.sources_operand(b, t["args"][st_idx[0]])
+                mp_reach = set(m.reach(mp.id))
+
+                def from_mp(s_):
+                    # the flow query looks through the call: the mapping's own aggregates (or its call, when opaque)
+                    return (s_.kind == "alloc" and s_[4] == mp.id) or (s_.kind in ("agg", "alloc", "const") and len(s_) > 1 and s_[1] in mp_reach)
+                other = [s for s in srcs if not from_mp(s) and s.kind != "param"]
+                if not any(from_mp(s) for s in srcs):
+                    continue        # a constructor call that does not use the mapping at all (covered by state-map / remaining-arg floors)
+                ctx.check(not other, rule + "3", "state-from-map|%s" % short(b.id), m.where(b, bb),
+                          "the state stored in the outcome is the mapping's result, unchanged",
+                          "the state stored in the outcome is the mapping's result or %s: the outcome can say Interrupted / Finished against the countdown" % [fmt_src(s) for s in other][:3])
         ctx.entry_floor(rule + "3", rule + "3", ("fold", "for_each", "try_fold", "try_for_each"), "call of the state mapping")
     O4(ctx, rule + "4")
 
@@ -1802,6 +1823,15 @@ def O3b(ctx, rule="O3b"):
             ctx.check(not ung, rule, "countdown-only-items|%s" % short(b.id), m.where(b, (ung or dec_blocks or [0])[0]),
                       "the countdown is decremented only under `Some(id)` of the dequeued item",
                       "the countdown is decremented even when the dequeued item carries no id (interruption notice): it underflows / reports Finished with functions left")
+            # ... and once: no path through the per-item body passes two decrement sites (a failure counted in the Err arm and
+            # again at the common tail takes the countdown below the number of functions left: it underflows when the failing
+            # function finishes last)
+            dset = sorted(set(dec_blocks))
+            twice = [(d1, d2) for d1 in dset for d2 in dset if d1 != d2 and d2 in b.reachable(d1)]
+            ctx.check(not twice, rule, "countdown-once|%s" % short(b.id), m.where(b, twice[0][1]) if twice else m.where(b),
+                      "no path through the per-item body decrements the countdown twice",
+                      "a path through the per-item body decrements the countdown at %s and again at %s: one function is counted off twice, the "
+                      "countdown underflows / reaches 0 with functions left" % (b.loc(twice[0][0]), b.loc(twice[0][1])) if twice else "")
             if helper_cond:
                 paths_ok = False
             ctx.check(paths_ok, rule, "countdown-every-item|%s" % short(b.id), m.where(b, a.into_bb),
